@@ -77,6 +77,15 @@ def cases(tier, seed):
                 for default in ('zero', 'fail'):
                     cs.append({'type': tname, 'order': list(order), 'truth': truth,
                                'default': default})
+            # the specification's own default function object registered explicitly for one pattern
+            # ("depthwise layers are free on this target" / "explicitly unsupported")
+            for k in order:
+                if k == 'U' and len(order) == 1:
+                    continue
+                for truth in truths:
+                    cs.append({'type': tname, 'order': list(order), 'truth': truth,
+                               'default': 'zero' if (len(truth) + len(order)) % 2 else 'fail',
+                               'use_default_for': k})
             # the same function object registered for two of the patterns (one cost model serving
             # e.g. both the depthwise and the 3x3 pattern): the patterns stay distinct
             for pair in itertools.combinations(order, 2):
@@ -214,7 +223,9 @@ def run_case(case, ctx):
     fns = {}
     for k in case['order']:
         share = case.get('share') or []
-        if k in share and any(o in fns for o in share):
+        if case.get('use_default_for') == k:
+            fn = spec.default
+        elif k in share and any(o in fns for o in share):
             fn = next(fns[o] for o in share if o in fns)
         else:
             fn = (lambda name: (lambda s: name))(k)
@@ -251,6 +262,7 @@ def run_case(case, ctx):
             'type': case['type'], 'registration_order': case['order'],
             'constraints_satisfied': case['truth'], 'default': case['default'],
             'same_function_for': case.get('share'),
+            'default_function_registered_for': case.get('use_default_for'),
             'got': 'KeyError: ' + str(err) if got == 'ERROR' else getattr(got, '__name__', str(got)),
             'want': want if want == 'ERROR' else getattr(want, '__name__', str(want))})
     # the default function must behave as declared
@@ -264,10 +276,11 @@ def run_case(case, ctx):
             if case['default'] != 'fail':
                 ctx.violation('lookup', {'sig': 'default-behaviour', 'default': case['default'],
                                          'value': 'raised'})
-    ctx.cls(f"{case['type']}-n{len(case['order'])}" + ('-shared-function' if case.get('share') else ''))
+    ctx.cls(f"{case['type']}-n{len(case['order'])}" + ('-shared-function' if case.get('share') else '')
+            + ('-default-function-registered' if case.get('use_default_for') else ''))
     if len(case['order']) >= 2:
         ctx.nontriv((case['type'], tuple(case['order']), tuple(case['truth']), case['default'],
-                     tuple(case.get('share') or ())))
+                     tuple(case.get('share') or ()), case.get('use_default_for')))
     if len(case['order']) == 3 and case['truth']:
         ctx.sample({'type': case['type'], 'registration_order': case['order'],
                     'constraints_satisfied_by_layer': case['truth'], 'default': case['default'],
